@@ -165,15 +165,28 @@ def scatterElements (s idx upd : Shape) (axis : Int) : Option Shape :=
 
 namespace scatter
 
-/-- `aten_scatter_src` (a 0-d index / src is unsqueezed first) and `aten_scatter_add` (no such branch). -/
+/-- `aten_scatter_src` (a 0-d index / src is unsqueezed first) and `aten_scatter_add` (no such branch).  Fix 33c2a16: when the (static) shapes of
+src and index differ, src is cut to the index shape with `Slice(src, [0]*r, Shape(index), axes=[0..r-1])` (`r` = rank of index). -/
+def sliceToIndex (src idx : Shape) : Option Shape :=
+  if src = idx then some src
+  else if src.length < idx.length then none      -- Slice axes out of range
+  else some (List.zipWith min src idx ++ src.drop idx.length)
+
 def model (isAdd : Bool) (s idx src : Shape) (dim : Int) : Option Shape :=
   let idx' := if !isAdd ∧ idx.length = 0 then [1] else idx
   let src' := if !isAdd ∧ src.length = 0 then [1] else src
-  scatterElements s idx' src' dim
+  match sliceToIndex src' idx' with
+  | none => none
+  | some u => scatterElements s idx' u dim
 
-def term (isAdd : Bool) (ri rs : Nat) (dim : Int) : String :=
-  let i := if !isAdd ∧ ri = 0 then tOp "Unsqueeze" ["x1", "[0]"] else "x1"
-  let u := if !isAdd ∧ rs = 0 then tOp "Unsqueeze" ["x2", "[0]"] else "x2"
+def term (isAdd : Bool) (idx src : Shape) (dim : Int) : String :=
+  let idx' := if !isAdd ∧ idx.length = 0 then [1] else idx
+  let src' := if !isAdd ∧ src.length = 0 then [1] else src
+  let i := if !isAdd ∧ idx.length = 0 then tOp "Unsqueeze" ["x1", "[0]"] else "x1"
+  let u := if !isAdd ∧ src.length = 0 then tOp "Unsqueeze" ["x2", "[0]"] else "x2"
+  let r := idx'.length
+  let u := if src' = idx' then u
+    else tOp "Slice" [u, tInts (List.replicate r 0), tOp "Shape" [i] [("start", "0")], tInts ((List.range r).map (Int.ofNat ·))]
   tOp "ScatterElements" ["x0", i, u] [("axis", tI dim), ("reduction", if isAdd then "add" else "none")]
 
 /-- `torch.scatter(self, dim, index, src)` / `scatter_add` (documentation): self, index and src have the same number of
@@ -203,10 +216,25 @@ def depthToSpace (s : Shape) (b : Int) : Option Shape :=
 
 namespace pixel_shuffle
 
-/-- `aten_pixel_shuffle`: rank 4 → `DepthToSpace(CRD)`; otherwise collapse the leading dims with `Reshape([-1] ++ Shape[-3:])`
-(`allowzero=0`), `DepthToSpace`, and restore them with `Reshape(Shape[:-3] ++ Shape(d2s)[1:], allowzero=1)`. -/
+/-- `aten_pixel_shuffle`: rank 4 → `DepthToSpace(CRD)`.  Otherwise, for a static shape of rank ≥ 3 (fix fcb6f44), the 4-D shape
+`[prod(batch), C, H, W]` and the result shape `[*batch, C // r², H·r, W·r]` are computed at trace time and both `Reshape`s use `allowzero=1`;
+rank < 3 keeps the dynamic path `Reshape([-1] ++ Shape[-3:])` … (PyTorch refuses those inputs). -/
+def staticOut (s : Shape) (r : Int) : Shape :=
+  let k := s.length - 3
+  s.take k ++ [s.getD k 0 / (r.toNat * r.toNat), s.getD (k + 1) 0 * r.toNat, s.getD (k + 2) 0 * r.toNat]
+
 def model (s : Shape) (r : Int) : Option Shape :=
   if s.length = 4 then depthToSpace s r
+  else if 3 ≤ s.length then
+    if r = 0 then none    -- ZeroDivisionError at trace time (`channels // (r*r)`)
+    else
+      let k := s.length - 3
+      match reshape true s ((numel (s.take k) :: s.drop k).map (Int.ofNat ·)) with
+      | none => none
+      | some x4 =>
+        match depthToSpace x4 r with
+        | none => none
+        | some d => reshape true d ((staticOut s r).map (Int.ofNat ·))
   else
     let batch := sliceShape s 0 (-3)
     let chw := sliceShape s (-3) (s.length : Int)
@@ -217,8 +245,12 @@ def model (s : Shape) (r : Int) : Option Shape :=
       | none => none
       | some d => reshape true d ((batch ++ d.drop 1).map (Int.ofNat ·))
 
-def term (rank : Nat) (r : Int) : String :=
-  if rank = 4 then tOp "DepthToSpace" ["x0"] [("blocksize", tI r), ("mode", "CRD")]
+def term (s : Shape) (r : Int) : String :=
+  if s.length = 4 then tOp "DepthToSpace" ["x0"] [("blocksize", tI r), ("mode", "CRD")]
+  else if 3 ≤ s.length then
+    let k := s.length - 3
+    let x4 := tOp "Reshape" ["x0", tNats (numel (s.take k) :: s.drop k)] [("allowzero", "1")]
+    tOp "Reshape" [tOp "DepthToSpace" [x4] [("blocksize", tI r), ("mode", "CRD")], tNats (staticOut s r)] [("allowzero", "1")]
   else
     let x4 := tOp "Reshape" ["x0", tOp "Concat" ["[-1]", tOp "Shape" ["x0"] [("start", "-3")]] [("axis", "0")]] [("allowzero", "0")]
     let d := tOp "DepthToSpace" [x4] [("blocksize", tI r), ("mode", "CRD")]
@@ -284,5 +316,131 @@ def spec (s : Shape) (r : Int) : Option Shape :=
   else some (s.take k ++ [s.getD k 0 * (r.toNat * r.toNat), h / r.toNat, w / r.toNat])
 
 end pixel_unshuffle
+
+namespace softmax
+
+/-- kind 0 = `aten_softmax(self, dim, dtype)`, 1 = `aten__softmax(self, dim, half_to_float)`, 2 = `aten__log_softmax`.
+Rank 0 → `Unsqueeze([0])`, (Log)Softmax on the rank-1 tensor, `Squeeze`; `castIn` = `half_to_float` on a half input
+(kinds 1, 2), `castOut` = a `dtype` argument (kind 0, ONNX dtype code). -/
+def term (kind : Nat) (r : Nat) (dim : Int) (castIn : Bool) (castOut : Option Nat) : String :=
+  let x := if castIn then tOp "Cast" ["x0"] [("to", "1")] else "x0"
+  let x := if r = 0 then tOp "Unsqueeze" [x, "[0]"] else x
+  let y := tOp (if kind = 2 then "LogSoftmax" else "Softmax") [x] [("axis", tI dim)]
+  let y := match castOut with | some d => tOp "Cast" [y] [("to", toString d)] | none => y
+  if r = 0 then (if kind = 2 then tOp "Squeeze" [y, "[0]"] else tOp "Squeeze" [y]) else y
+
+/-- ONNX `Softmax(axis)` (opset 13): `axis` in `[-r, r-1]`, shape unchanged; a rank-0 input goes through rank 1. -/
+def model (s : Shape) (dim : Int) : Option Shape :=
+  (normAxis (if s.length = 0 then 1 else s.length) dim).map (fun _ => s)
+
+def spec (s : Shape) (dim : Int) : Option Shape := (torchDim s.length dim).map (fun _ => s)
+
+end softmax
+
+namespace linear
+
+/-- ONNX `Gemm(A[M,K], B[N,K], C?, transB=1)`: `[M, N]`; `C` unidirectionally broadcastable to `[M, N]`. -/
+def gemmTransB (a b : Shape) (c : Option Shape) : Option Shape :=
+  match a, b with
+  | [m, k], [n, k'] =>
+    if k ≠ k' then none
+    else match c with
+      | none => some [m, n]
+      | some cs => if expandOp cs [m, n] = some [m, n] then some [m, n] else none
+  | _, _ => none
+
+/-- `aten_linear`: 2-D input and weight → `Gemm(transB=1)`; 1-D weight (no bias) → `Squeeze(MatMul(input, Unsqueeze(weight,[1])),[-1])`;
+otherwise `MatMul(input, Transpose(weight))` (+ `Add(bias)`). -/
+def model (x w : Shape) (bias : Option Shape) : Option Shape :=
+  if x.length = 2 ∧ w.length = 2 then gemmTransB x w bias
+  else if w.length = 1 then
+    (if bias.isSome then none   -- NotImplementedError at trace time
+     else match matmulOp x (w ++ [1]) with
+       | none => none
+       | some o => squeezeOp o [-1])
+  else if w.length ≠ 2 then none   -- assert
+  else match matmulOp x w.reverse with
+    | none => none
+    | some o => match bias with
+      | none => some o
+      | some b => bcast2 o b
+
+def term (rx rw : Nat) (hasBias : Bool) : String :=
+  if rx = 2 ∧ rw = 2 then
+    tOp "Gemm" (["x0", "x1"] ++ (if hasBias then ["x2"] else [])) [("alpha", "1.0"), ("beta", "1.0"), ("transA", "0"), ("transB", "1")]
+  else if rw = 1 then tOp "Squeeze" [tOp "MatMul" ["x0", tOp "Unsqueeze" ["x1", "[1]"]], "[-1]"]
+  else
+    let mm := tOp "MatMul" ["x0", tOp "Transpose" ["x1"] [("perm", "[1,0]")]]
+    if hasBias then tOp "Add" [mm, "x2"] else mm
+
+/-- `torch.nn.functional.linear(input[*, in], weight[out, in], bias[out]?)` → `[*, out]`; a 1-D weight `[in]` (no bias) contracts the
+last dim away: `[*]`. -/
+def spec (x w : Shape) (bias : Option Shape) : Option Shape :=
+  if x.length = 0 then none else
+  match w with
+  | [k] => if bias.isSome ∨ x.getD (x.length - 1) 0 ≠ k then none else some (x.take (x.length - 1))
+  | [n, k] =>
+    if x.getD (x.length - 1) 0 ≠ k then none
+    else match bias with
+      | none => some (x.take (x.length - 1) ++ [n])
+      | some b => if b = [n] then some (x.take (x.length - 1) ++ [n]) else none
+  | _ => none
+
+end linear
+
+namespace vector_norm
+
+/-- the `ord` argument: `inf`, `-inf`, or an integer (floats equal to an integer take the same branch). -/
+inductive Ord where
+  | posInf | negInf | int (p : Int)
+  deriving DecidableEq, Repr
+
+/-- `1/ord` as printed in the term, for the (exactly representable) exponents of the generator. -/
+def invStr (p : Int) : String :=
+  if p = 4 then "0.25:FLOAT" else if p = -1 then "-1.0:FLOAT" else if p = -2 then "-0.5:FLOAT" else "?"
+
+/-- `aten_linalg_vector_norm(self, ord, dim, keepdim)`: `dim is None` → `Reshape(self,[-1])` and `keepdim = False` for the reduction; otherwise the axes
+are `Reshape(dim,[-1])` (computed).  Then by `ord`: ±inf → `ReduceMax/Min(Abs)`, 0 → `ReduceSum` of the 0/1 indicator, 1 → `ReduceL1`,
+2 → `ReduceL2`, else `Pow(ReduceSum(Pow(|x|, ord)), 1/ord)` (`Abs` skipped for positive even `ord`). -/
+def termCore (ord : Ord) (dims : Option (List Int)) (keep : Bool) : String :=
+  let x := match dims with | none => tOp "Reshape" ["x0", "[-1]"] [("allowzero", "0")] | some _ => "x0"
+  let kp := match dims with | none => false | some _ => keep
+  let red (nm : String) (y : String) : String :=
+    match dims with
+    | none => tOp nm [y] [("keepdims", tB kp), ("noop_with_empty_axes", "0")]
+    | some ds => tOp nm [y, tOp "Reshape" [tInts ds, "[-1]"] [("allowzero", "0")]] [("keepdims", tB kp), ("noop_with_empty_axes", "0")]
+  match ord with
+  | .posInf => red "ReduceMax" (tOp "Abs" [x])
+  | .negInf => red "ReduceMin" (tOp "Abs" [x])
+  | .int p =>
+    if p = 0 then red "ReduceSum" (tOp "CastLike" [tOp "Cast" [x] [("to", "9")], x])
+    else if p = 1 then red "ReduceL1" x
+    else if p = 2 then red "ReduceL2" x
+    else
+      let ax := if p < 0 ∨ p % 2 ≠ 0 then tOp "Abs" [x] else x
+      tOp "Pow" [red "ReduceSum" (tOp "Pow" [ax, tI p]), tOp "CastLike" [invStr p, ax]]
+
+/-- fix 7d29f42: with `dim=None` and `keepdim=True` the 0-d result is reshaped to `[1] * rank` (static rank; nothing for rank 0). -/
+def term (r : Nat) (ord : Ord) (dims : Option (List Int)) (keep : Bool) : String :=
+  let core := termCore ord dims keep
+  if dims.isNone ∧ keep ∧ 0 < r then tOp "Reshape" [core, tInts (List.replicate r 1)] [("allowzero", "0")] else core
+
+def model (s : Shape) (dims : Option (List Int)) (keep : Bool) : Option Shape :=
+  match dims with
+  | none => match reshape false s [-1] with
+    | none => none
+    | some flat =>
+      match reduceOp flat [] false with
+      | none => none
+      | some o => if keep ∧ 0 < s.length then reshape false o (List.replicate s.length 1) else some o
+  | some ds => reduceDyn s ds keep
+
+/-- `torch.linalg.vector_norm(x, ord, dim=None, keepdim)`: no `dim` reduces everything — and `keepdim=True` keeps all dims as 1. -/
+def spec (s : Shape) (dims : Option (List Int)) (keep : Bool) : Option Shape :=
+  match dims with
+  | none => if keep then some (List.replicate s.length 1) else some []
+  | some ds => torchReduce s ds keep
+
+end vector_norm
 
 end OV.C08
